@@ -1,533 +1,5 @@
-// Workloads for C19: combinator trees over synthetic exact leaves (unions of boxes) and over
-// constraint-based leaves.  Usage: h_comb <workload> <seed> <count> [full]
-//
-// line formats (see lean/Driver/OpsComb.lean):
-//   comb <n> <ctc-tree> <leaf defs...> @ <x1> <x2> ... => <out1> <out2> ...       (same object, successive calls)
-//   sep  <n> <sep-tree> <leaf defs...> @ <x1> ...      => <in1> <out1> ... pre=<0|1>
-//   pdc  <n> <pdc-tree> <leaf defs...> @ <x1> ...      => <Y|N|M|E> ...
-//   qint <q> <box>|<box>|...                           => <box>
-//   cst  <n> <ctc-tree over constraint leaves> @ <x> <point>|<point>|... => <out>
-// leaf defs:  L<i>=<fix><inact>=<boxes>   S<i>=<U boxes>=<V boxes>   P<i>=<U boxes>=<V boxes>
-#include "common.h"
-#include <memory>
-#include <functional>
-using namespace ibex; using namespace vh; using namespace std;
-
-static long emitted = 0;
-#define EMIT(...) do { printf(__VA_ARGS__); emitted++; } while (0)
-
-// ------------------------------------------------------------------ synthetic leaves
-typedef vector<IntervalVector> Boxes;
-
-static IntervalVector ctc_u(const Boxes& U, const IntervalVector& x) {
-  IntervalVector res(IntervalVector::empty(x.size()));
-  for (size_t k = 0; k < U.size(); k++) res |= (x & U[k]);
-  return res;
-}
-
-class CtcUnionOfBoxes : public Ctc {
-public:
-  Boxes U; bool setFix, setInact;
-  CtcUnionOfBoxes(int n, const Boxes& U, bool f, bool i) : Ctc(n), U(U), setFix(f), setInact(i) {}
-  void contract(IntervalVector& box) { ContractContext c(box); contract(box, c); }
-  void contract(IntervalVector& box, ContractContext& ctx) {
-    bool inside = false;
-    for (size_t k = 0; k < U.size(); k++) if (box.is_subset(U[k])) inside = true;
-    box = ctc_u(U, box);
-    if (setFix) ctx.output_flags.add(FIXPOINT);
-    if (setInact && inside) ctx.output_flags.add(INACTIVE);
-  }
-};
-
-static bool sep_pre_ok = true;
-class SepOfBoxes : public Sep {
-public:
-  Boxes U, V;
-  SepOfBoxes(int n, const Boxes& U, const Boxes& V) : Sep(n), U(U), V(V) {}
-  void separate(IntervalVector& x_in, IntervalVector& x_out) {
-    if (!(x_in == x_out)) sep_pre_ok = false;
-    x_in = ctc_u(V, x_in);
-    x_out = ctc_u(U, x_out);
-  }
-};
-
-class PdcOfBoxes : public Pdc {
-public:
-  Boxes U, V;
-  PdcOfBoxes(int n, const Boxes& U, const Boxes& V) : Pdc(n), U(U), V(V) {}
-  BoolInterval test(const IntervalVector& x) {
-    bool dv = true, du = true;
-    for (size_t k = 0; k < V.size(); k++) if (!x.is_disjoint(V[k])) dv = false;
-    for (size_t k = 0; k < U.size(); k++) if (!x.is_disjoint(U[k])) du = false;
-    return dv ? YES : (du ? NO : MAYBE);
-  }
-};
-
-// ------------------------------------------------------------------ generators
-struct Gen {
-  Rng& r; bool general;   // general: arbitrary doubles instead of the half-integer lattice
-  int maxdepth;
-  vector<string> leafdefs;
-  vector<Ctc*> ctcs; vector<Sep*> seps; vector<Pdc*> pdcs; vector<Function*> fns; vector<NumConstraint*> ncs;
-  int nL, nS, nP;
-  Gen(Rng& r, bool general, int maxdepth) : r(r), general(general), maxdepth(maxdepth), nL(0), nS(0), nP(0) {}
-  ~Gen() {
-    // combinators first (they only hold references), leaves last
-    for (size_t i = seps.size(); i-- > 0;) delete seps[i];
-    for (size_t i = ctcs.size(); i-- > 0;) delete ctcs[i];
-    for (size_t i = pdcs.size(); i-- > 0;) delete pdcs[i];
-    for (size_t i = fns.size(); i-- > 0;) delete fns[i];
-  }
-  double coord() {
-    if (!general) return r.range(-8, 8) / 2.0;
-    switch (r.below(4)) {
-      case 0: return r.range(-8, 8) / 2.0;
-      case 1: return (double)(int64_t)(r.next() % 2000001ULL) / 100000.0 - 10.0;
-      default: { double m = (double)(r.next() >> 11) / 9007199254740992.0; return (m - 0.5) * 16.0; }
-    }
-  }
-  Interval itv(int pct_unb = 6, int pct_deg = 12) {
-    double a = coord(), b = coord();
-    if (a > b) swap(a, b);
-    if (r.coin(pct_deg)) b = a;
-    if (r.coin(pct_unb)) { if (r.coin()) a = NEG_INFINITY; else b = POS_INFINITY; if (r.coin(20)) { a = NEG_INFINITY; b = POS_INFINITY; } }
-    return Interval(a, b);
-  }
-  IntervalVector box(int n, int pct_unb = 6, int pct_deg = 12) { IntervalVector v(n); for (int i = 0; i < n; i++) v[i] = itv(pct_unb, pct_deg); return v; }
-  // wide interval around a random centre (leaf boxes should meet the input boxes often)
-  Interval wide_itv() {
-    if (r.coin(25)) return itv();
-    double c = coord(), hw = general ? (1 + r.below(500)) / 100.0 : r.range(1, 8) / 2.0;
-    double a = c - hw, b = c + hw;
-    if (r.coin(8)) a = NEG_INFINITY; if (r.coin(8)) b = POS_INFINITY;
-    return Interval(a, b);
-  }
-  IntervalVector wide_box(int n) { IntervalVector v(n); for (int i = 0; i < n; i++) v[i] = wide_itv(); return v; }
-  // a common "core" point per case: most leaves / inputs contain it, so that intersections are often non-empty
-  double core[8]; bool core_set = false;
-  void set_core() { for (int i = 0; i < 8; i++) core[i] = general ? coord() : r.range(-6, 6) / 2.0; core_set = true; }
-  IntervalVector core_box(int n) {
-    if (!core_set) set_core();
-    IntervalVector v(n);
-    for (int i = 0; i < n; i++) {
-      double lo = general ? (r.below(400)) / 100.0 : r.range(0, 6) / 2.0, hi = general ? (r.below(400)) / 100.0 : r.range(0, 6) / 2.0;
-      v[i] = Interval(core[i] - lo, core[i] + hi);
-      if (r.coin(6)) v[i] = Interval(NEG_INFINITY, v[i].ub()); else if (r.coin(6)) v[i] = Interval(v[i].lb(), POS_INFINITY);
-    }
-    return v;
-  }
-  Boxes boxes(int n, int lo, int hi) {
-    Boxes B; int k = r.range(lo, hi);
-    for (int i = 0; i < k; i++) B.push_back((i == 0 && r.coin(70)) ? core_box(n) : wide_box(n));
-    return B;
-  }
-  static string tokB(const Boxes& B) { if (B.empty()) return "-"; string s; for (size_t i = 0; i < B.size(); i++) { if (i) s += "|"; s += tok(B[i]); } return s; }
-
-  // a covering pair (U,V): cells of a random grid labelled in / out / both
-  void cover(int n, Boxes& U, Boxes& V) {
-    vector<vector<Interval> > ax(n);
-    for (int i = 0; i < n; i++) {
-      vector<double> cuts; int k = r.range(n >= 3 ? 0 : 1, 2);
-      for (int j = 0; j < k; j++) cuts.push_back(coord());
-      sort(cuts.begin(), cuts.end()); cuts.erase(unique(cuts.begin(), cuts.end()), cuts.end());
-      double prev = NEG_INFINITY;
-      for (size_t j = 0; j < cuts.size(); j++) { ax[i].push_back(Interval(prev, cuts[j])); prev = cuts[j]; }
-      ax[i].push_back(Interval(prev, POS_INFINITY));
-    }
-    vector<int> idx(n, 0);
-    while (true) {
-      IntervalVector c(n); for (int i = 0; i < n; i++) c[i] = ax[i][idx[i]];
-      int lab = r.below(100);
-      if (lab < 45) U.push_back(c); else if (lab < 90) V.push_back(c); else { U.push_back(c); V.push_back(c); }
-      int d = 0; while (d < n && ++idx[d] == (int)ax[d].size()) { idx[d] = 0; d++; }
-      if (d == n) break;
-    }
-  }
-
-  Ctc* keep(Ctc* c) { ctcs.push_back(c); return c; }
-  Sep* keep(Sep* s) { seps.push_back(s); return s; }
-  Pdc* keep(Pdc* p) { pdcs.push_back(p); return p; }
-
-  Ctc* leafOf(int n, const Boxes& U, string& s) {
-    bool f = r.coin(30), ia = r.coin(40);
-    int id = nL++;
-    leafdefs.push_back("L" + to_string(id) + "=" + (f ? "1" : "0") + (ia ? "1" : "0") + "=" + tokB(U));
-    s = "L" + to_string(id);
-    return keep(new CtcUnionOfBoxes(n, U, f, ia));
-  }
-  Ctc* leaf(int n, string& s) { return leafOf(n, boxes(n, r.coin(5) ? 0 : 1, 3), s); }
-
-  static string hexs(double d) { return hex(d); }
-
-  Pdc* pdc(int n, int depth, string& s) {
-    if (depth <= 0 || r.coin(25)) {
-      Boxes U, V; cover(n, U, V);
-      int id = nP++;
-      leafdefs.push_back("P" + to_string(id) + "=" + tokB(U) + "=" + tokB(V));
-      s = "P" + to_string(id);
-      return keep(new PdcOfBoxes(n, U, V));
-    }
-    int k = r.below(5);
-    if (k == 0) { string a; Pdc* p = pdc(n, depth - 1, a); s = "not(" + a + ")"; return keep(new PdcNot(*p)); }
-    int m = r.range(2, 3); Array<Pdc> arr(m); string args;
-    for (int i = 0; i < m; i++) { string a; arr.set_ref(i, *pdc(n, depth - 1, a)); if (i) args += ","; args += a; }
-    if (k <= 2) { s = "and(" + args + ")"; return keep(new PdcAnd(arr)); }
-    s = "or(" + args + ")"; return keep(new PdcOr(arr));
-  }
-
-  double ratio() {
-    static const double R[] = {0.0, 0.1, 0.01, 0.5, 0.25, 1e-3, 0.9};
-    if (general && r.coin(30)) return (double)(r.next() >> 11) / 9007199254740992.0;
-    return R[r.below(7)];
-  }
-
-  int force_quant = 0;   // >0: the next node generated is an exists / for-all node
-  Ctc* ctc(int n, int depth, string& s, bool allow_quant = true) {
-    int k = (depth <= 0) ? r.below(20) : 20 + r.below(80);
-    if (force_quant > 0 && n < 3) { force_quant--; k = 85; allow_quant = true; }
-    if (k < 14) return leaf(n, s);
-    if (k < 16) { BitSet b = BitSet::empty(n); string m; bool any = false;
-      for (int i = 0; i < n; i++) { bool t = r.coin(60); if (i == n - 1 && !any) t = true; if (t) { b.add(i); any = true; } m += t ? "1" : "0"; }
-      s = "int[" + m + "]"; return keep(new CtcInteger(n, b)); }
-    if (k < 18) { s = "id"; return keep(new CtcIdentity(n)); }
-    if (k < 19) { s = "empty"; return keep(new CtcEmpty(n)); }
-    if (k < 20) { string a; Pdc* p = pdc(n, 1, a); s = "cpdc(" + a + ")"; return keep(new CtcEmpty(*p, false)); }
-    if (k < 42 || k >= 92) { // compo
-      int m = r.range(2, 3); Array<Ctc> arr(m); string args;
-      for (int i = 0; i < m; i++) { string a; arr.set_ref(i, *ctc(n, depth - 1, a, allow_quant)); if (i) args += ","; args += a; }
-      s = "compo(" + args + ")"; return keep(new CtcCompo(arr)); }
-    if (k < 60) { // union
-      int m = r.range(2, 3); Array<Ctc> arr(m); string args;
-      for (int i = 0; i < m; i++) { string a; arr.set_ref(i, *ctc(n, depth - 1, a, allow_quant)); if (i) args += ","; args += a; }
-      s = "union(" + args + ")"; return keep(new CtcUnion(arr)); }
-    if (k < 70) { string a; Ctc* c = ctc(n, depth - 1, a, allow_quant); double ra = ratio();
-      s = "fix[" + hexs(ra) + "](" + a + ")"; return keep(new CtcFixPoint(*c, ra)); }
-    if (k < 80) { int m = r.range(2, 4); Array<Ctc> arr(m); string args; int q = r.range(1, m);
-      for (int i = 0; i < m; i++) { string a; arr.set_ref(i, *ctc(n, depth - 1, a, allow_quant)); if (i) args += ","; args += a; }
-      s = "qinter[" + to_string(q) + "](" + args + ")"; return keep(new CtcQInter(arr, q)); }
-    if (!allow_quant || n >= 3) return leaf(n, s);
-    { // exist / forall over m parameters
-      int m = (n == 1 && r.coin(25)) ? 2 : 1;
-      int tot = n + m;
-      // positions of the variables
-      vector<int> isv(tot, 0); int placed = 0; while (placed < n) { int p = r.below(tot); if (!isv[p]) { isv[p] = 1; placed++; } }
-      BitSet vars = BitSet::empty(tot); string mask; for (int i = 0; i < tot; i++) { if (isv[i]) vars.add(i); mask += isv[i] ? "1" : "0"; }
-      IntervalVector y(m); double w = 0;
-      if (!core_set) set_core();
-      bool around_core = r.coin(70); int jp = 0;
-      for (int i = 0; i < tot; i++) { if (isv[i]) continue;
-        double a = coord(); double len = general ? (1 + r.below(400)) / 100.0 : r.range(1, 8) / 2.0;
-        if (around_core) { a = core[i] - (general ? (1 + r.below(150)) / 100.0 : r.range(1, 3) / 2.0); len = core[i] - a + (general ? (1 + r.below(150)) / 100.0 : r.range(1, 3) / 2.0); }
-        y[jp] = Interval(a, a + len); if (y[jp].diam() > w) w = y[jp].diam(); jp++; }
-      // precision: at most ~16 leaves of the bisection tree per parameter
-      static const double P[] = {0.25, 0.5, 1.0, 2.0, 0.3};
-      double prec = P[r.below(5)]; while (w / prec > (m == 1 ? 16 : 4)) prec *= 2; while (prec > w) prec /= 2;
-      string a; Ctc* c = ctc(tot, depth - 1, a, depth >= 3 && r.coin(30));
-      bool ex = r.coin(55);
-      s = string(ex ? "exist[" : "forall[") + mask + "/" + tok(y) + "/" + hexs(prec) + "/" + hexs(Bsc::default_ratio()) + "](" + a + ")";
-      if (ex) return keep(new CtcExist(*c, vars, y, prec)); else return keep(new CtcForAll(*c, vars, y, prec));
-    }
-  }
-
-  // a consistent pair (inner contractor, outer contractor) of contractor trees
-  void cpair(int n, int depth, Ctc*& cin, Ctc*& cout, string& sin, string& sout) {
-    if (depth <= 0 || r.coin(30)) {
-      Boxes U, V; cover(n, U, V);
-      cout = leafOf(n, U, sout); cin = leafOf(n, V, sin);
-      if (r.coin(20)) { double ra = ratio(); cout = keep(new CtcFixPoint(*cout, ra)); sout = "fix[" + hexs(ra) + "](" + sout + ")"; }
-      return;
-    }
-    int m = r.range(2, 3); Array<Ctc> ai(m), ao(m); string si, so;
-    for (int i = 0; i < m; i++) { Ctc *ci, *co; string a, b; cpair(n, depth - 1, ci, co, a, b); ai.set_ref(i, *ci); ao.set_ref(i, *co); if (i) { si += ","; so += ","; } si += a; so += b; }
-    if (r.coin()) { cout = keep(new CtcUnion(ao)); cin = keep(new CtcCompo(ai)); sout = "union(" + so + ")"; sin = "compo(" + si + ")"; }
-    else { cout = keep(new CtcCompo(ao)); cin = keep(new CtcUnion(ai)); sout = "compo(" + so + ")"; sin = "union(" + si + ")"; }
-  }
-
-  Sep* sep(int n, int depth, string& s) {
-    int k = (depth <= 0) ? r.below(20) : 20 + r.below(80);
-    if (k < 14) { Boxes U, V; cover(n, U, V); int id = nS++;
-      leafdefs.push_back("S" + to_string(id) + "=" + tokB(U) + "=" + tokB(V));
-      s = "S" + to_string(id); return keep(new SepOfBoxes(n, U, V)); }
-    if (k < 20) { Ctc *ci, *co; string a, b; cpair(n, r.below(2), ci, co, a, b); s = "pair(" + a + "," + b + ")"; return keep(new SepCtcPair(*ci, *co)); }
-    if (k < 32) { string a; Sep* p = sep(n, depth - 1, a); s = "not(" + a + ")"; return keep(new SepNot(*p)); }
-    int m = r.range(2, 3); if (k >= 80) m = r.range(2, 4);
-    Array<Sep> arr(m); string args;
-    for (int i = 0; i < m; i++) { string a; arr.set_ref(i, *sep(n, depth - 1, a)); if (i) args += ","; args += a; }
-    if (k < 56) { s = "inter(" + args + ")"; return keep(new SepInter(arr)); }
-    if (k < 80) { s = "union(" + args + ")"; return keep(new SepUnion(arr)); }
-    int q = r.below(m); s = "qinter[" + to_string(q) + "](" + args + ")"; return keep(new SepQInter(arr, q));
-  }
-
-  string defs() { string s; for (size_t i = 0; i < leafdefs.size(); i++) { s += leafdefs[i]; s += " "; } return s; }
-};
-
-static IntervalVector input_box(Gen& g, int n) {
-  if (g.r.coin(2)) return IntervalVector::empty(n);
-  if (g.r.coin(45)) return g.core_box(n);
-  if (g.r.coin(35)) { IntervalVector v(n); for (int i = 0; i < n; i++) v[i] = Interval(-4 - g.r.below(2), 4 + g.r.below(2)); return v; }
-  return g.box(n, 5, 8);
-}
-
-static void run_ctc(Gen& g, int n, Ctc* c, const string& tree, const char* op = "comb") {
-  int calls = g.r.range(1, 3);
-  string ins, outs;
-  for (int k = 0; k < calls; k++) {
-    IntervalVector x = input_box(g, n);
-    ins += " " + tok(x);
-    try { c->contract(x); outs += " " + tok(x); }
-    catch (NoBisectableVariableException&) { outs += " EXC"; }
-  }
-  EMIT("%s %d %s %s@%s =>%s\n", op, n, tree.c_str(), g.defs().c_str(), ins.c_str(), outs.c_str());
-  check_round_up("comb");
-}
-
-static void wl_comb(Rng& r, long count, bool general, int maxdepth) {
-  for (long it = 0; it < count; it++) {
-    Gen g(r, general, maxdepth);
-    int n = r.range(1, 3);
-    int depth = r.range(1, maxdepth);
-    string tree; Ctc* c = g.ctc(n, depth, tree);
-    run_ctc(g, n, c, tree);
-  }
-}
-
-// trees rooted at an exists / for-all node, 2-4 successive calls on the same object
-static void wl_quant(Rng& r, long count, bool general, int maxdepth) {
-  for (long it = 0; it < count; it++) {
-    Gen g(r, general, maxdepth);
-    int n = r.range(1, 2);
-    g.force_quant = 1;
-    string tree; Ctc* c = g.ctc(n, r.range(1, maxdepth), tree);
-    if (r.coin(30)) { string t2; Ctc* c2 = g.leaf(n, t2); Array<Ctc> arr(2); arr.set_ref(0, *c); arr.set_ref(1, *c2);
-      if (r.coin()) { c = g.keep(new CtcUnion(arr)); tree = "union(" + tree + "," + t2 + ")"; } else { c = g.keep(new CtcCompo(arr)); tree = "compo(" + tree + "," + t2 + ")"; } }
-    run_ctc(g, n, c, tree);
-  }
-}
-
-static void wl_sep(Rng& r, long count, bool general, int maxdepth) {
-  for (long it = 0; it < count; it++) {
-    Gen g(r, general, maxdepth);
-    int n = r.range(1, 3);
-    string tree; Sep* s = g.sep(n, r.range(0, maxdepth), tree);
-    int calls = r.range(1, 3); string ins, outs; sep_pre_ok = true;
-    for (int k = 0; k < calls; k++) {
-      IntervalVector x = input_box(g, n); ins += " " + tok(x);
-      IntervalVector xi(x), xo(x);
-      s->separate(xi, xo);
-      outs += " " + tok(xi) + " " + tok(xo);
-    }
-    EMIT("sep %d %s %s@%s =>%s pre=%d\n", n, tree.c_str(), g.defs().c_str(), ins.c_str(), outs.c_str(), sep_pre_ok ? 1 : 0);
-  }
-}
-
-static const char* bname(BoolInterval b) { return b == YES ? "Y" : b == NO ? "N" : b == MAYBE ? "M" : "E"; }
-static void wl_pdc(Rng& r, long count, bool general, int maxdepth) {
-  for (long it = 0; it < count; it++) {
-    Gen g(r, general, maxdepth);
-    int n = r.range(1, 3);
-    string tree; Pdc* p = g.pdc(n, r.range(1, maxdepth), tree);
-    int calls = r.range(1, 4); string ins, outs;
-    for (int k = 0; k < calls; k++) {
-      IntervalVector x = r.coin(50) ? g.box(n, 3, 30) : input_box(g, n);
-      if (r.coin(40)) for (int i = 0; i < n; i++) if (x[i].is_bisectable() && !x[i].is_unbounded()) x[i] = Interval(x[i].lb(), x[i].lb() + (x[i].diam() > 1 ? 0.5 : 0));
-      ins += " " + tok(x); outs += string(" ") + bname(p->test(x));
-    }
-    EMIT("pdc %d %s %s@%s =>%s\n", n, tree.c_str(), g.defs().c_str(), ins.c_str(), outs.c_str());
-  }
-}
-
-// direct q-intersection of boxes
-static void wl_qint(Rng& r, long count, bool general) {
-  for (long it = 0; it < count; it++) {
-    Gen g(r, general, 1);
-    int n = r.range(1, 3), p = r.range(1, 5), q = r.range(1, p);
-    Boxes B; for (int i = 0; i < p; i++) B.push_back(r.coin(4) ? IntervalVector::empty(n) : g.box(n, 8, 15));
-    Array<IntervalVector> a(p); for (int i = 0; i < p; i++) a.set_ref(i, B[i]);
-    IntervalVector res = qinter(a, q);
-    EMIT("qint %d %d %s => %s\n", n, q, Gen::tokB(B).c_str(), tok(res).c_str());
-  }
-}
-
-// dedicated probes: quantifiers whose parameter box is narrower than the precision, degenerate parameter boxes
-static void wl_quantsmall(Rng& r, long count) {
-  for (long it = 0; it < count; it++) {
-    Gen g(r, false, 1);
-    int n = r.range(1, 2), m = 1, tot = n + m;
-    BitSet vars = BitSet::empty(tot); string mask; int pp = r.below(tot);
-    for (int i = 0; i < tot; i++) { if (i != pp) vars.add(i); mask += (i != pp) ? "1" : "0"; }
-    double a = g.coord(); IntervalVector y(1, r.coin(40) ? Interval(a, a) : Interval(a, a + 0.5));
-    double prec = r.coin() ? 1.0 : 0.5;
-    string sub; Ctc* c = g.ctc(tot, 0, sub, false);
-    bool ex = r.coin(60);
-    string tree = string(ex ? "exist[" : "forall[") + mask + "/" + tok(y) + "/" + hex(prec) + "/" + hex(Bsc::default_ratio()) + "](" + sub + ")";
-    Ctc* q = ex ? (Ctc*)new CtcExist(*c, vars, y, prec) : (Ctc*)new CtcForAll(*c, vars, y, prec);
-    g.keep(q);
-    run_ctc(g, n, q, tree);
-  }
-}
-
-// ------------------------------------------------------------------ constraint-based leaves (point sampling)
-struct Poly {
-  int n; vector<pair<double, vector<int> > > mons;
-  string expr() const {
-    string e;
-    for (size_t k = 0; k < mons.size(); k++) {
-      char buf[64]; snprintf(buf, sizeof buf, "%.17g", mons[k].first);
-      if (k) e += "+"; e += "(" + string(buf) + ")";
-      for (int i = 0; i < n; i++) if (mons[k].second[i] > 0) e += "*x" + to_string(i + 1) + "^" + to_string(mons[k].second[i]);
-    }
-    return e;
-  }
-  string tok() const {
-    string e;
-    for (size_t k = 0; k < mons.size(); k++) {
-      if (k) e += "+"; e += hex(mons[k].first) + "*";
-      for (int i = 0; i < n; i++) { if (i) e += "."; e += to_string(mons[k].second[i]); }
-    }
-    return e;
-  }
-};
-static double small_coef(Rng& r) { static const double C[] = {0.25, 0.5, 1, 1, 1, 1.5, 2, 3}; double c = C[r.below(8)]; return r.coin() ? c : -c; }
-static Poly rand_poly(Rng& r, int n) {
-  Poly p; p.n = n;
-  int shape = r.below(6);
-  auto mono = [&](double c, vector<int> e) { e.resize(n, 0); p.mons.push_back(make_pair(c, e)); };
-  int i = r.below(n), j = (n > 1) ? (i + 1 + r.below(n - 1)) % n : i;
-  vector<int> z(n, 0);
-  auto unit = [&](int a, int ea, int b = -1, int eb = 0) { vector<int> e(n, 0); e[a] += ea; if (b >= 0) e[b] += eb; return e; };
-  switch (shape) {
-    case 0: mono(small_coef(r), unit(i, 1)); if (n > 1) mono(small_coef(r), unit(j, 1)); break;             // linear
-    case 1: mono(1, unit(i, 1, j, 1)); break;                                                                   // x*y (or x^2)
-    case 2: mono(1, unit(i, 2)); if (n > 1) mono(r.coin(70) ? 1 : -1, unit(j, 2)); break;                      // circle / hyperbola
-    case 3: mono(1, unit(j, 1)); mono(small_coef(r), unit(i, 2)); break;                                       // parabola
-    case 4: mono(1, unit(i, 3)); if (n > 1) mono(-1, unit(j, 1)); break;                                       // cubic
-    default: for (int k = 0; k < n; k++) if (r.coin(70)) mono(small_coef(r), unit(k, 1 + (int)r.below(2)));    // mixed
-  }
-  if (p.mons.empty()) mono(1, unit(i, 1));
-  mono(r.coin(25) ? 0.0 : (r.coin() ? 1 : -1) * (r.range(0, 8) / 2.0), z);                                     // constant
-  return p;
-}
-static Function* make_fn(const Poly& p) {
-  string e = p.expr();
-  switch (p.n) {
-    case 1: return new Function("x1", e.c_str());
-    case 2: return new Function("x1", "x2", e.c_str());
-    case 3: return new Function("x1", "x2", "x3", e.c_str());
-    default: return new Function("x1", "x2", "x3", "x4", e.c_str());
-  }
-}
-static const char* opname(CmpOp op) { return op == LT ? "lt" : op == LEQ ? "le" : op == EQ ? "eq" : op == GEQ ? "ge" : "gt"; }
-static CmpOp rand_op(Rng& r) { int k = r.below(10); return k < 4 ? LEQ : k < 8 ? GEQ : k < 9 ? EQ : (r.coin() ? LT : GT); }
-
-struct CGen {
-  Gen& g; Rng& r; int nC;
-  CGen(Gen& g) : g(g), r(g.r), nC(0) {}
-  int new_poly(int n, Function*& f, string opn) {
-    Poly p = rand_poly(r, n); f = make_fn(p); g.fns.push_back(f);
-    int id = nC++; g.leafdefs.push_back("C" + to_string(id) + "=" + opn + "=" + p.tok());
-    return id;
-  }
-  Ctc* cleaf(int n, string& s) {
-    int k = r.below(10);
-    Function* f;
-    if (k < 6) { CmpOp op = rand_op(r); int id = new_poly(n, f, opname(op)); s = "C" + to_string(id); return g.keep(new CtcFwdBwd(*f, op)); }
-    if (k < 8) { int id = new_poly(n, f, "le"); Interval y = g.itv(10, 5); s = "notin[" + to_string(id) + "/" + tok(y) + "]"; return g.keep(new CtcNotIn(*f, y)); }
-    { int id = new_poly(n, f, "le"); string a; Ctc* c = g.leafOf(1, g.boxes(1, 1, 2), a); s = "inv[" + to_string(id) + "](" + a + ")"; return g.keep(new CtcInverse(*c, *f)); }
-  }
-  Ctc* ctc(int n, int depth, string& s) {
-    int k = depth <= 0 ? 0 : 1 + r.below(10);
-    if (k == 0) return cleaf(n, s);
-    if (k <= 4) { int m = r.range(2, 3); Array<Ctc> arr(m); string args; for (int i = 0; i < m; i++) { string a; arr.set_ref(i, *ctc(n, depth - 1, a)); if (i) args += ","; args += a; } s = "compo(" + args + ")"; return g.keep(new CtcCompo(arr)); }
-    if (k <= 7) { int m = r.range(2, 3); Array<Ctc> arr(m); string args; for (int i = 0; i < m; i++) { string a; arr.set_ref(i, *ctc(n, depth - 1, a)); if (i) args += ","; args += a; } s = "union(" + args + ")"; return g.keep(new CtcUnion(arr)); }
-    if (k <= 8) { string a; Ctc* c = ctc(n, depth - 1, a); double ra = g.ratio(); s = "fix[" + hex(ra) + "](" + a + ")"; return g.keep(new CtcFixPoint(*c, ra)); }
-    { int m = r.range(2, 4); Array<Ctc> arr(m); string args; int q = r.range(1, m); for (int i = 0; i < m; i++) { string a; arr.set_ref(i, *ctc(n, depth - 1, a)); if (i) args += ","; args += a; } s = "qinter[" + to_string(q) + "](" + args + ")"; return g.keep(new CtcQInter(arr, q)); }
-  }
-  Sep* sleaf(int n, string& s) {
-    Function* f;
-    if (r.coin(75)) { CmpOp op = rand_op(r); int id = new_poly(n, f, opname(op)); s = "SF" + to_string(id); return g.keep(new SepFwdBwd(*f, op)); }
-    int id = new_poly(n, f, "le"); Boxes U, V; g.cover(1, U, V); int sid = g.nS++;
-    g.leafdefs.push_back("S" + to_string(sid) + "=" + Gen::tokB(U) + "=" + Gen::tokB(V));
-    Sep* leaf = g.keep(new SepOfBoxes(1, U, V));
-    s = "sinv[" + to_string(id) + "](S" + to_string(sid) + ")"; return g.keep(new SepInverse(*leaf, *f));
-  }
-  Sep* sep(int n, int depth, string& s) {
-    int k = depth <= 0 ? 0 : 1 + r.below(10);
-    if (k == 0) return sleaf(n, s);
-    if (k <= 2) { string a; Sep* p = sep(n, depth - 1, a); s = "not(" + a + ")"; return g.keep(new SepNot(*p)); }
-    int m = r.range(2, 3); Array<Sep> arr(m); string args;
-    for (int i = 0; i < m; i++) { string a; arr.set_ref(i, *sep(n, depth - 1, a)); if (i) args += ","; args += a; }
-    if (k <= 5) { s = "inter(" + args + ")"; return g.keep(new SepInter(arr)); }
-    if (k <= 8) { s = "union(" + args + ")"; return g.keep(new SepUnion(arr)); }
-    int q = r.below(m); s = "qinter[" + to_string(q) + "](" + args + ")"; return g.keep(new SepQInter(arr, q));
-  }
-};
-
-static double sample_coord(Rng& r, const Interval& I) {
-  double lo = I.lb() == NEG_INFINITY ? -8 : I.lb(), hi = I.ub() == POS_INFINITY ? 8 : I.ub();
-  if (lo > hi) { lo = hi = (I.lb() == NEG_INFINITY ? I.ub() : I.lb()); }
-  switch (r.below(6)) {
-    case 0: return lo;
-    case 1: return hi;
-    case 2: { double m = std::floor((lo + hi) * 2) / 4; return (m >= lo && m <= hi) ? m : lo; }
-    case 3: { double q = std::ceil(lo * 4) / 4 + r.below(1 + (uint64_t)std::max(0.0, std::floor((hi - lo) * 4))) / 4.0; return (q >= lo && q <= hi) ? q : lo; }
-    default: { double t = (double)(r.next() >> 11) / 9007199254740992.0; double v = lo + t * (hi - lo); return (v >= lo && v <= hi) ? v : lo; }
-  }
-}
-static string tokpt(const Vector& v) { string s; for (int i = 0; i < v.size(); i++) { if (i) s += ";"; s += hex(v[i]); } return s; }
-
-static void wl_cst(Rng& r, long count, int maxdepth) {
-  for (long it = 0; it < count; it++) {
-    Gen g(r, false, maxdepth); CGen cg(g);
-    int n = r.range(1, 3);
-    bool ex = n <= 2 && r.coin(20);
-    string tree; Ctc* c; IntervalVector y(1); BitSet vars = BitSet::empty(n + 1); string mask;
-    if (ex) {
-      int pp = r.below(n + 1); for (int i = 0; i <= n; i++) { if (i != pp) vars.add(i); mask += (i != pp) ? "1" : "0"; }
-      double a = g.coord(); y[0] = Interval(a, a + r.range(1, 6) / 2.0);
-      double prec = r.coin() ? 0.5 : 0.25;
-      string sub; Ctc* inner = cg.ctc(n + 1, r.range(0, maxdepth - 1), sub);
-      tree = "exist[" + mask + "/" + tok(y) + "/" + hex(prec) + "/" + hex(Bsc::default_ratio()) + "](" + sub + ")";
-      c = g.keep(new CtcExist(*inner, vars, y, prec));
-    } else c = cg.ctc(n, r.range(0, maxdepth), tree);
-    IntervalVector x = g.r.coin(50) ? g.core_box(n) : input_box(g, n);
-    if (x.is_empty()) continue;
-    IntervalVector out(x);
-    try { c->contract(out); } catch (NoBisectableVariableException&) { EMIT("cst %d %s %s@ %s - => EXC\n", n, tree.c_str(), g.defs().c_str(), tok(x).c_str()); continue; }
-    // sample points of x outside the result (full points (x,y) for an exists node)
-    string pts; int kept = 0;
-    for (int k = 0; k < 60 && kept < 14; k++) {
-      Vector p(n); for (int i = 0; i < n; i++) p[i] = sample_coord(r, x[i]);
-      if (!out.is_empty() && out.contains(p)) continue;
-      Vector full(ex ? n + 1 : n);
-      if (ex) { int jx = 0; for (int i = 0; i <= n; i++) full[i] = vars[i] ? p[jx++] : sample_coord(r, y[0]); } else full = p;
-      if (kept++) pts += "|"; pts += tokpt(full);
-    }
-    if (!kept) pts = "-";
-    EMIT("cst %d %s %s@ %s %s => %s\n", n, tree.c_str(), g.defs().c_str(), tok(x).c_str(), pts.c_str(), tok(out).c_str());
-    check_round_up("cst");
-  }
-}
-
-static void wl_csep(Rng& r, long count, int maxdepth) {
-  for (long it = 0; it < count; it++) {
-    Gen g(r, false, maxdepth); CGen cg(g);
-    int n = r.range(1, 3);
-    string tree; Sep* s = cg.sep(n, r.range(0, maxdepth), tree);
-    IntervalVector x = g.r.coin(50) ? g.core_box(n) : input_box(g, n);
-    if (x.is_empty()) continue;
-    IntervalVector xi(x), xo(x); sep_pre_ok = true;
-    s->separate(xi, xo);
-    string pts; int kept = 0;
-    for (int k = 0; k < 80 && kept < 16; k++) {
-      Vector p(n); for (int i = 0; i < n; i++) p[i] = sample_coord(r, x[i]);
-      bool inI = !xi.is_empty() && xi.contains(p), inO = !xo.is_empty() && xo.contains(p);
-      if (inI && inO) continue;
-      if (kept++) pts += "|"; pts += tokpt(p);
-    }
-    if (!kept) pts = "-";
-    EMIT("csep %d %s %s@ %s %s => %s %s pre=%d\n", n, tree.c_str(), g.defs().c_str(), tok(x).c_str(), pts.c_str(), tok(xi).c_str(), tok(xo).c_str(), sep_pre_ok ? 1 : 0);
-  }
-}
+// Workloads for C19 (combinator trees): generators and workloads are in comb_gen.h (shared with h_set.cpp).
+#include "comb_gen.h"
 
 int main(int argc, char** argv) {
   string wl = argc > 1 ? argv[1] : "comb";
